@@ -435,3 +435,147 @@ Proof.
   replace (join_index ch []) with (@None (list Z)) by reflexivity.
   cbn [tmap map flatten flat_map app reindex_obj fold_left mm2]. rewrite !reindex_m_val_at. rewrite op2_ss. reflexivity.
 Qed.
+
+(* ------------------------------------------------------------------ any mix of Series / scalar / pseudo-series / frame *)
+Section MIX.
+  Variable opc : cell -> cell -> cell.
+
+  Lemma opnd_spec m d P o x : simple o = true ->
+    column_obj (Some x) d (reindex_obj (TgIdx P) m o) =
+      if is_ser o x then OS (map (fun t => (t, ocell m d o x t)) P) else ON (ocell m d o x 0).
+  Proof.
+    destruct o as [s|c r|a|k rows|c|i]; try discriminate.
+    - intros _. simpl. rewrite reindex_m_val_at. reflexivity.
+    - destruct c as [|c0 [|c1 cs]]; intros H; [discriminate H| |].
+      + cbn [reindex_obj column_obj is_ser ocell]. rewrite reindex_m_row_val, column_map_fn. reflexivity.
+      + cbn [reindex_obj]. unfold column_obj, is_ser, ocell, fcell. rewrite reindex_m_row_val.
+        destruct (mem x (c0 :: c1 :: cs)); [rewrite column_map_fn|]; reflexivity.
+    - intros _. reflexivity.
+  Qed.
+
+  Lemma ocell_scalar_const m d o x t : simple o = true -> is_ser o x = false -> ocell m d o x t = ocell m d o x 0.
+  Proof.
+    destruct o as [s|c r|a|k rows|c|i]; try discriminate; intros _ H.
+    - destruct c as [|c0 [|c1 cs]]; [reflexivity | cbn in H; discriminate H |].
+      change (mem x (c0 :: c1 :: cs) = false) in H. unfold ocell, fcell. rewrite H. reflexivity.
+    - reflexivity.
+  Qed.
+
+  Lemma call_series_mix m d P a b x : simple a = true -> simple b = true -> is_ser a x || is_ser b x = true ->
+    call_series opc (Some x, [Leaf (column_obj (Some x) d (reindex_obj (TgIdx P) m a));
+                              Leaf (column_obj (Some x) d (reindex_obj (TgIdx P) m b))])
+    = map (fun t => (t, opc (ocell m d a x t) (ocell m d b x t))) P.
+  Proof.
+    intros Sa Sb Hs. unfold call_series. cbn [snd]. rewrite (opnd_spec m d P a x Sa), (opnd_spec m d P b x Sb).
+    destruct (is_ser a x) eqn:Ea; destruct (is_ser b x) eqn:Eb; try discriminate.
+    - rewrite op2_ss. reflexivity.
+    - rewrite op2_sn. apply map_ext. intros t. rewrite (ocell_scalar_const m d b x t Sb Eb). reflexivity.
+    - rewrite op2_ns. apply map_ext. intros t. rewrite (ocell_scalar_const m d a x t Sa Ea). reflexivity.
+  Qed.
+
+  Definition mix_result m d a b (C P : list Z) : obj :=
+    match C with
+    | [] => OS []
+    | _ => OF C (map (fun t => (t, map (fun x => opc (ocell m d a x t) (ocell m d b x t)) C)) P)
+    end.
+
+  (* whenever at least one operand is a proper frame (so that presync loops over columns) *)
+  Theorem binop_mix h m ch d a b P C : simple a = true -> simple b = true ->
+    join_index h (pd_indexes [a; b]) = Some P -> join_index ch (frame_cols [a; b]) = Some C ->
+    (forall x, In x C -> is_ser a x || is_ser b x = true) ->
+    binop opc h m ch d a b = mix_result m d a b C P.
+  Proof.
+    intros Sa Sb HP HC Hser.
+    unfold binop, presync_calls. cbn [flat_map flatten app]. rewrite (df_index_pd _ _ _ HP). rewrite HC.
+    cbn [map tmap]. unfold mix_result. destruct C as [|x0 C']; [reflexivity|].
+    set (C := x0 :: C') in *.
+    set (mk := fun x : Z => (Some x, [Leaf (column_obj (Some x) d (reindex_obj (TgIdx P) m a));
+                                     Leaf (column_obj (Some x) d (reindex_obj (TgIdx P) m b))])).
+    change (assemble opc (map mk C) (has1 a || has1 b) =
+            OF C (map (fun t => (t, map (fun x => opc (ocell m d a x t) (ocell m d b x t)) C)) P)).
+    assert (Hs : map (call_series opc) (map mk C) = map (fun x => map (fun t => (t, opc (ocell m d a x t) (ocell m d b x t))) P) C).
+    { rewrite map_map. apply map_ext_in. intros x Hx. unfold mk. apply call_series_mix; auto. }
+    assert (Hc : map (fun c : option Z * list tree => match fst c with Some x => x | None => 0 end) (map mk C) = C).
+    { rewrite map_map. unfold mk. cbn [fst]. clear. generalize C. intros l. induction l as [|y l IH]; simpl; [reflexivity | rewrite IH; reflexivity]. }
+    assert (Hasm : assemble opc (map mk C) (has1 a || has1 b) =
+                   let sers := map (call_series opc) (map mk C) in
+                   let idx := match sers with s :: _ => index_of s | [] => [] end in
+                   OF (map (fun c : option Z * list tree => match fst c with Some x => x | None => 0 end) (map mk C))
+                      (map (fun t => (t, map (fun s => at_ None s t) sers)) idx)).
+    { unfold C, mk. reflexivity. }
+    rewrite Hasm. cbv zeta. rewrite Hs, Hc.
+    assert (Hidx : match map (fun x => map (fun t => (t, opc (ocell m d a x t) (ocell m d b x t))) P) C with
+                   | [] => [] | s :: _ => index_of s end = P).
+    { unfold C. cbn [map]. apply (index_map_fn (fun t => opc (ocell m d a x0 t) (ocell m d b x0 t))). }
+    f_equal. etransitivity; [apply f_equal; exact Hidx|].
+    apply map_ext_in. intros t Ht. f_equal.
+    rewrite map_map. apply map_ext. intros x.
+    apply (at_map_fn (fun t => opc (ocell m d a x t) (ocell m d b x t)) P t Ht).
+  Qed.
+
+  Theorem mix_result_cell m d a b C P t x : In t P -> In x C ->
+    frame_cell (mix_result m d a b C P) t x = opc (ocell m d a x t) (ocell m d b x t).
+  Proof.
+    intros Ht Hx. unfold mix_result. destruct C as [|x0 C']; [destruct Hx|].
+    set (C := x0 :: C') in *. unfold frame_cell, at_.
+    rewrite (lookup_map_fn (nanrow C) row_isnan (fun t => map (fun x => opc (ocell m d a x t) (ocell m d b x t)) C) P t Ht).
+    apply (row_get_map C (fun x => opc (ocell m d a x t) (ocell m d b x t)) x Hx).
+  Qed.
+End MIX.
+
+(* frame x Series, frame x scalar, frame x pseudo-series: the columns are the frame's, every operand other than the
+   frame is used for every column *)
+Lemma frame_cols_one ca ra b : multi ca = true -> (forall c r, b = OF c r -> multi c = false) ->
+  frame_cols [OF ca ra; b] = [ca] /\ frame_cols [b; OF ca ra] = [ca].
+Proof.
+  intros Ha Hb. unfold frame_cols. cbn [flat_map]. rewrite Ha. destruct b; try (split; reflexivity).
+  rewrite (Hb cols rows eq_refl). split; reflexivity.
+Qed.
+
+(* ------------------------------------------------------------------ df_sum / df_mean / df_count on DataFrames *)
+Definition all_frames (xs : list obj) : Prop := Forall (fun o => exists c r, o = OF c r /\ multi c = true) xs.
+
+Lemma row_get_fcell m c r x t : row_get c (row_val m c r t) x = fcell m None c r x t.
+Proof.
+  unfold fcell. destruct (mem x c) eqn:E; [reflexivity|].
+  apply row_get_notin. intros Q. apply mem_In in Q. congruence.
+Qed.
+
+Definition synced_frame m (C P : list Z) (o : obj) : obj := OF C (map (fun t => (t, map (fun x => ocell m None o x t) C)) P).
+
+Lemma sync_leaf_frame xs h m ch P C c r : join_index h (pd_indexes xs) = Some P -> join_index ch (frame_cols xs) = Some C ->
+  multi c = true ->
+  sync_leaf (TL (map Leaf xs)) h m (Some ch) (OF c r) = synced_frame m C P (OF c r).
+Proof.
+  intros HP HC Hm. unfold sync_leaf. rewrite flatten_leaves, (df_index_pd _ _ _ HP), HC.
+  cbn [reindex_obj recolumn_obj]. rewrite Hm. rewrite reindex_m_row_val, map_map. unfold synced_frame. f_equal.
+  apply map_ext. intros t. cbn [fst snd]. f_equal. apply map_ext. intros x.
+  destruct (multi_two c Hm) as [c0 [c1 [cs ->]]]. apply row_get_fcell.
+Qed.
+
+Lemma cell_of_synced m C P o t x : In t P -> In x C -> cell_of (synced_frame m C P o) t x = ocell m None o x t.
+Proof.
+  intros Ht Hx. unfold synced_frame, cell_of, at_.
+  rewrite (lookup_map_fn (nanrow C) row_isnan (fun t => map (fun x => ocell m None o x t) C) P t Ht).
+  apply (row_get_map C (fun x => ocell m None o x t) x Hx).
+Qed.
+
+Theorem df_agg_frames g h m ch c0 r0 rest P C : all_frames (OF c0 r0 :: rest) ->
+  join_index h (pd_indexes (OF c0 r0 :: rest)) = Some P -> join_index ch (frame_cols (OF c0 r0 :: rest)) = Some C ->
+  df_agg g h m ch (OF c0 r0 :: rest) =
+    OF C (map (fun t => (t, map (fun x => agg_cell g (map (fun o => ocell m None o x t) (OF c0 r0 :: rest))) C)) P).
+Proof.
+  intros Hall HP HC. unfold df_agg.
+  assert (Hn : forall o, TL (map Leaf (OF c0 r0 :: rest)) <> Leaf o) by (intros o; discriminate).
+  rewrite (proj1 (df_sync_leafwise _ h m (Some ch) Hn)). rewrite flatten_leaves.
+  set (xs := OF c0 r0 :: rest) in *.
+  assert (Hleaf : forall o, In o xs -> sync_leaf (TL (map Leaf xs)) h m (Some ch) o = synced_frame m C P o).
+  { intros o Ho. unfold all_frames in Hall. rewrite Forall_forall in Hall. destruct (Hall o Ho) as [c [r [-> Hm]]].
+    apply sync_leaf_frame; assumption. }
+  rewrite (map_ext_in _ _ xs Hleaf).
+  assert (Hff : first_frame (map (synced_frame m C P) xs) = Some (C, P)).
+  { unfold xs, first_frame, synced_frame. cbn [map flat_map app]. f_equal. f_equal.
+    apply (index_map_fn (fun t => map (fun x => ocell m None (OF c0 r0) x t) C)). }
+  rewrite Hff. f_equal. apply map_ext_in. intros t Ht. f_equal. apply map_ext_in. intros x Hx. f_equal.
+  rewrite map_map. apply map_ext. intros o. apply cell_of_synced; assumption.
+Qed.
